@@ -250,11 +250,17 @@ class History(Machine):
             for n, z in blobs:
                 w.blobs[n] = {"path": f"{W}/in/{n}"}
             g = gen.DescGen(s.sub("desc", sub), feats, w, size=s.randint(0, 2))
-            pl = {"#fw_a": f"{W}/in/fw_a.bin", "#inline": "c0ffee"} if payloads else None
+            pl = {"#fw_a": f"{W}/in/fw_a.bin", "#inline": "c0ffee", "#fw_b": f"{W}/in/fw_b.bin", "zeta": "00ff",
+                  "alpha/1": "a1"} if payloads else None
             dn = None
-            if deps:
+            if deps == 1:
                 g2 = gen.DescGen(s.sub("desc", sub, "child"), feats, w, size=0)
                 dn = {"#dep": g2.envelope()}
+            elif deps > 1:
+                dn = {}
+                for k in range(deps):
+                    g2 = gen.DescGen(s.sub("desc", sub, "child", k), feats, w, size=0)
+                    dn[f"#dep_{'abcdefgh'[k]}{k * 7}"] = g2.envelope(payload_names={f"#p{k}": f"{k:02x}c0ffee{k:02x}", f"#q{k}": f"{W}/in/fw_b.bin"} if k != 1 else {f"#only{k}": "0badcafe"})
             return g.envelope(payload_names=pl, dep_names=dn, manifest_component_id=cid)
 
         bases = []  # tasks whose outputs feed pool tasks
@@ -266,6 +272,8 @@ class History(Machine):
             return len(bases) - 1
 
         b_env = base_create(gen_desc("b0", deps=1), "base-create")
+        b_multi = base_create(gen_desc("multi", deps=s.choice([3, 4])), "base-create-multi")
+        b_more = [base_create(gen_desc(f"bx{k}", deps=k % 2), f"base-create-{k}") for k in range(2)]
         cls_name, role = s.choice(DEFAULT_CLASSES["nrf54h20"])
         cid = ["INSTLD_MFST", {"RFC4122_UUID": {"namespace": NORDIC, "name": cls_name}}]
         b_boot = base_create(gen_desc("b1", payloads=False, cid=cid), "base-create-boot")
@@ -319,6 +327,10 @@ class History(Machine):
         optional.append({"kind": "cli", "label": "parse-other-envelope", "seed": seed,
                          "argv": ["parse", "--input-file", f"{W}/in/e.suit", "--output-file", f"{W}/out/p.json",
                                   "--output-format", "json"], "inputs": [base_in(b_boot, "e.suit", "in/e.suit")]})
+        for k, bx in enumerate(b_more):
+            optional.append({"kind": "cli", "label": f"parse-envelope-{k}", "seed": seed,
+                             "argv": ["parse", "--input-file", f"{W}/in/e.suit", "--output-file", f"{W}/out/p.yaml",
+                                      "--output-format", "yaml"], "inputs": [base_in(bx, "e.suit", "in/e.suit")]})
         optional.append({"kind": "cli", "label": "parse-stdout", "seed": seed, "stdout": True,
                          "argv": ["parse", "--input-file", f"{W}/in/e.suit"], "inputs": [base_in(b_env, "e.suit", "in/e.suit")]})
         optional.append({"kind": "cli", "label": "image-boot", "seed": seed,
@@ -346,6 +358,14 @@ class History(Machine):
                          "argv": ["cache_create", "from_envelope", "--output-file", f"{W}/out/c.bin", "--eb-size", "16",
                                   "--input-envelope", f"{W}/in/e.suit", "--output-envelope", f"{W}/out/e.suit",
                                   "--dependency-regex", "#dep"], "inputs": [base_in(b_env, "e.suit", "in/e.suit")]})
+        optional.append({"kind": "cli", "label": "cache-from-envelope-multi", "seed": seed,
+                         "argv": ["cache_create", "from_envelope", "--output-file", f"{W}/out/c.bin", "--eb-size", "8",
+                                  "--input-envelope", f"{W}/in/e.suit", "--output-envelope", f"{W}/out/e.suit",
+                                  "--dependency-regex", "#dep.*"], "inputs": [base_in(b_multi, "e.suit", "in/e.suit")]})
+        optional.append({"kind": "cli", "label": "parse-multi-hier", "seed": seed,
+                         "argv": ["parse", "--input-file", f"{W}/in/e.suit", "--output-file", f"{W}/out/p.yaml",
+                                  "--output-format", "yaml", "--parse-hierarchy"],
+                         "inputs": [base_in(b_multi, "e.suit", "in/e.suit")]})
         optional.append({"kind": "cli", "label": "payload-extract", "seed": seed,
                          "argv": ["payload_extract", "--input-envelope", f"{W}/in/e.suit", "--output-envelope",
                                   f"{W}/out/e.suit", "--payload-name", "#fw_a", "--output-payload-file", f"{W}/out/p.bin"],
@@ -434,7 +454,7 @@ class History(Machine):
 
         ex = model["_extra"]
         plan = model["plan"]
-        cl = refserver.client()
+        cl = refserver.client(plan["seed"])
         if str(cl.hashseed) not in ex["hashseeds"]:
             ex["hashseeds"].append(str(cl.hashseed))
         own = os.environ.get("PYTHONHASHSEED", "random")
